@@ -180,7 +180,7 @@ PROPS = {
         rule="stream histories of 1-5 trace batches (1-7 spans per scope, 0-2 resources x 0-2 scopes, events, links, every AnyValue type incl. nested lists/maps, empty keys and unset values, boundary numerics, "
              "near-identical resources/scopes differing only in value type or embedded delimiters, repeated and fresh strings; a quarter of the histories low-entropy: every name/key/value/timestamp from a pool of one or two, "
              "so sorted groups span tables and repeat across batch boundaries) through the real producer and consumer, the consumer lagging 0-2 batches behind the producer (decoded in stream order); per batch (a) the equivalence predicate of Otlp/Equiv.v "
-             "evaluated in Coq on real input vs real output, (a') the real ResourceID/ScopeID string of every generated resource and scope compared byte for byte with Otlp/Ids.v (atom renderers tabulated per case), (b) the real attribute tables and id columns decoded by the Coq model and compared with what the real consumer attached to every row, and re-encoded to the real parent-id column",
+             "evaluated in Coq on real input vs real output, (a') the real ResourceID/ScopeID string of every generated resource and scope compared byte for byte with Otlp/Ids.v (atom renderers tabulated per case), (b) the real attribute tables and id columns decoded by the Coq model and compared with what the real consumer attached to every row, and re-encoded to the real parent-id column, (c) the real span-event and span-link tables (ids, name / trace-id keyed parent ids, their 32-bit attribute tables) decoded by the model: per span the children and their attributes must be those the real consumer attached",
         trusted_base=["modelled, not verified: arrow-go (builders, IPC transport, dictionaries), zstd, the CBOR byte codec (nested values are read back through common.Deserialize)",
                       "the scalar columns of the main tables are not modelled cell by cell (tie: equivalence predicate on real I/O)",
                       "identifier injectivity assumes (explicit hypothesis Ids.atoms_ok) that strconv.Quote output is self-delimiting and FormatInt/FormatUint/FormatFloat/FormatBool/hex outputs are uniquely decodable before , ] } | or the end",
